@@ -15,7 +15,7 @@ Ltac asindec :=
   | |- _ <= cos ?e * sin ?b + sin ?e * cos ?b * sin (?p - ?l) => exact (proj1 (ecC_range l b e p))
   | |- cos ?e * sin ?b + sin ?e * cos ?b * sin (?p - ?l) <= _ => exact (proj2 (ecC_range l b e p))
   end.
-Ltac dec3 := first [ assumption | asindec | Rlit_norm_all; zfold; lra ].
+Ltac dec3 := first [ assumption | sqsum | asindec | Rlit_norm_all; zfold; lra ].
 Ltac pyrun3 := pyrunH_using ltac:(hook2 dec3) dec3.
 
 Theorem ecl_closed J j0 j1 l0 b0 ml mb : g_JDE2000 Rops = ep J ->
